@@ -742,6 +742,21 @@ def insert_after_pattern(text, pattern, insertion, fn_name, before=False, nth=1,
                         raise ExtractError(f"insertion point after `{first.text}` is unreachable: `{pattern}` in {fn_name}")
             else:
                 at = s_idx[a] if before else s_idx[a + len(pat) - 1] + 1
+                if before:
+                    # a ghost block cannot sit in the middle of a statement (`let x = <here> f(..)?;`): back up to the
+                    # start of the statement the pattern is part of (the previous `;`, `{` or `}` at the same depth)
+                    d = 0; m = a - 1
+                    while m >= 0:
+                        x = toks[s_idx[m]]
+                        if x.kind == "punct" and x.text in CLOSE:
+                            if d == 0 and x.text == "}": break
+                            d += 1
+                        elif x.kind == "punct" and x.text in OPEN:
+                            if d == 0: break
+                            d -= 1
+                        elif d == 0 and x.text in (";", "=>"): break
+                        m -= 1
+                    at = s_idx[m + 1]
             return "".join(t.text for t in toks[:at]) + insertion + "".join(t.text for t in toks[at:])
     raise ExtractError(f"anchor lost: pattern `{pattern}` (occurrence {nth}) in {fn_name}")
 
